@@ -22,6 +22,7 @@ EXPLANATION = (
     "analysis of the loop's iteration count over the ranges the register reads can produce (bin() of a signed byte / word). An "
     "unclassified primitive is an ANALYSIS-ERROR. (R2) per-sensor isolation: _map_response and ET.read_settings_data assign the result "
     "on both the normal and the ValueError path inside the loop body, and sensor.read is called nowhere else."
+    ' R2 is a path rule per loop iteration (a failing item stores None and the loop goes on) and forbids eager package-defined conversions (f-string / str() of a sensor object) inside the isolating handler.'
 )
 
 # calls that cannot raise on the values decoders pass them
